@@ -290,6 +290,34 @@ def check_types(S, T, shape, arg, ev, label):
                 S.bad('BND', label + '-push-once', 'a field type can be pushed %d times on one path' % n, line=ev.line)
                 good = False
                 break
+    # coverage of branches: wherever the handler decides "this field has a method / has none" and emits code on the no-method side,
+    # that side delegates to the field type's own impl and must collect the type
+    if T not in ('Into', 'Default'):
+        def _method_test(c):
+            if c['k'] != 'iflet' or c['pol'] or not pat_s(c['pat']).startswith('Some('):
+                return False
+            t_ = es(c['expr']).replace(' ', '')
+            for suf in ('.as_ref()', '.clone()', '.take()'):
+                if t_.endswith(suf):
+                    t_ = t_[:-len(suf)]
+            return t_.endswith('.method')
+        emitting = {}
+        for e_ in fw.events:
+            if e_.kind == 'macro' and isinstance(e_.mac, dict) and 'tmpl' in e_.mac and e_.name in ('quote', 'quote_spanned'):
+                for c in e_.ctx:
+                    if _method_test(c):
+                        emitting.setdefault(c['id'], e_)
+        pushing = set(c['id'] for pev, _k, _key, _v in ps for c in pev.ctx if _method_test(c))
+        # pushes made in a pass of their own (`types.extend(fields.iter().filter(no method).map(type))`) are not inside an emitting
+        # branch: each of them can stand for one emitting branch without a push (their own guard is judged by `push-guard`)
+        spare = len([1 for pev, _k, _key, _v in ps if not any(_method_test(c) and c['id'] in emitting for c in pev.ctx)])
+        for cid_, e_ in emitting.items():
+            if cid_ not in pushing and spare > 0:
+                spare -= 1
+                continue
+            if cid_ not in pushing:
+                S.bad('BND', label + '-coverage', 'code for a field without a `method` is emitted here, but the field\'s type is not added to the delegated types: the impl lacks the bound on that type', line=e_.line)
+                good = False
     # coverage of shapes: the collection must be filled for every kind of type / variant the handler serves
     if T not in ('Into',) and not (T == 'Default' and shape == 'union'):
         datas, shapes_ = set(), set()
